@@ -78,6 +78,7 @@ package util
 //@ ghost var fileInt gmap[string]int
 //@ ghost var faithful gset[string]
 //@ ghost var procWorld int
+//@ ghost var lastReadFailed bool
 
 // ---- assumed contracts of dependencies used across packages -----------------------------------
 //@ extern func fmt.Errorf(format string, a []any) (err error)
@@ -121,7 +122,8 @@ package util
 
 //@ opaque func ReadIntFromFile
 //@   ensures err == nil ==> value == fileInt[path]
-//@   ensures err != nil ==> value == -1 || true
+//@   ensures lastReadFailed == (err != nil)
+//@   modifies lastReadFailed
 //@   trusted "I/O model: a successful read returns the integer content of the file; may fail at every call"
 //@ opaque func WriteIntToFile
 //@   ensures result == nil && path in faithful ==> fileInt[path] == value
@@ -254,3 +256,14 @@ package util
 //@   ensures[C18.refuse]   !(executable in resolveOK && resolvedPath[executable] in statOK && permOK(resolvedPath[executable])) ==> err != nil && started == old(started)
 //@   ensures[C19.shape]    err != nil ==> out == ""
 //@   modifies started, procWorld
+
+// ---- smoothing (C08, C10) ---------------------------------------------------------------------------
+//@ func UpdateSimpleMovingAvg
+//@   props C08 C10
+//@   requires n >= 1 && n <= 1000000000 && fin(oldAvg) && fin(newValue)
+//@   let bounded = abs(real(oldAvg)) <= 1.0e300 && abs(real(newValue)) <= 1.0e300 && (oldAvg == newValue || abs(real(newValue) - real(oldAvg)) >= 1.0e-290)
+//@   ensures[C08.finite] abs(real(oldAvg)) <= 1.0e300 && abs(real(newValue)) <= 1.0e300 ==> fin(result)
+//@   ensures[C08.hull]   bounded && n >= 2 ==> min(oldAvg, newValue) <= result && result <= max(oldAvg, newValue)
+//@   ensures[C08.hull1]  n == 1 && isint(oldAvg) && isint(newValue) && abs(real(oldAvg)) <= 1000000000000000.0 && abs(real(newValue)) <= 1000000000000000.0 ==> result == newValue
+//@   ensures[C08.fixpoint] abs(real(oldAvg)) <= 1.0e300 && oldAvg == newValue ==> result == newValue
+//@   modifies nothing
